@@ -59,7 +59,7 @@ VARIABLES up,        \* a process has the database open
 
 vars == <<up, pc, uk, uc, uname, uex, pre, orph, blobs, prime, dprime, rep, nupd, nev>>
 
-Range(f)     == { f[x] : x \in DOMAIN f }
+Rng(f)     == { f[x] : x \in DOMAIN f }
 Put(f, k, v) == [x \in DOMAIN f \cup {k} |-> IF x = k THEN v ELSE f[x]]
 Stored(b)    == { b[n].c : n \in DOMAIN b }
 \* the staging file of the update in progress
@@ -94,8 +94,8 @@ TypeOK ==
     /\ orph \subseteq Contents \cup {Partial}
     /\ DOMAIN blobs \subseteq Names
     /\ \A n \in DOMAIN blobs : blobs[n].c \in Contents /\ blobs[n].h = Digest(blobs[n].c)
-    /\ DOMAIN prime \subseteq Keys /\ Range(prime) \subseteq Names
-    /\ DOMAIN dprime \subseteq Keys /\ Range(dprime) \subseteq Names
+    /\ DOMAIN prime \subseteq Keys /\ Rng(prime) \subseteq Names
+    /\ DOMAIN dprime \subseteq Keys /\ Rng(dprime) \subseteq Names
     /\ rep \in {"none", "new", "old"}
     /\ (~up => prime = dprime /\ pc = "idle")
 
@@ -169,7 +169,7 @@ Close ==
 Purge ==
     /\ ~up /\ nev < MaxEv
     /\ blobs' = IF DOMAIN dprime = {} THEN blobs                              \* "Aborting purge because found NO keys"
-                ELSE [n \in DOMAIN blobs \cap Range(dprime) |-> blobs[n]]
+                ELSE [n \in DOMAIN blobs \cap Rng(dprime) |-> blobs[n]]
     /\ nev' = nev + 1
     /\ UNCHANGED <<up, pc, uk, uc, uname, uex, pre, orph, prime, dprime, rep, nupd>>
 
